@@ -131,6 +131,24 @@ func main() {
 				normNotes = append(normNotes, tag+"case splitting abandoned (overlay does not type-check)")
 			}
 		}
+		// `a, b := helper(x), helper(y)`: one definition per statement
+		if split, notes := normalize.SplitParallelDefine(pr, rules.CanonicalName(pr), cur); len(split) > 0 {
+			next := map[string][]byte{}
+			for k, v := range cur {
+				next[k] = v
+			}
+			for k, v := range split {
+				next[k] = v
+			}
+			if prog2, err2 := load.Load(load.Options{Dir: *repo, Overlay: next, GOARCH: *goarch}); err2 == nil {
+				pr, cur = prog2, next
+				for _, n := range notes {
+					normNotes = append(normNotes, tag+n)
+				}
+			} else {
+				normNotes = append(normNotes, tag+"parallel-definition splitting abandoned (overlay does not type-check)")
+			}
+		}
 		// `return <expression calling a new helper>` of a predicate: explicit verdicts
 		if expl, notes := normalize.ExplicitBoolReturns(pr, rules.CanonicalName(pr), cur); len(expl) > 0 {
 			next := map[string][]byte{}
